@@ -469,3 +469,480 @@ Proof.
 Qed.
 
 End BuildRules.
+
+(* ------------------------------------------------------------------------------------------ *)
+(** * Digit runs                                                                                *)
+
+Fixpoint span_digits (p : list Z) : list Z * list Z :=
+  match p with
+  | [] => ([], [])
+  | c :: p' => if is_digit c then let '(a, b) := span_digits p' in (c :: a, b) else ([], p)
+  end.
+
+Lemma span_digits_spec (p : list Z) :
+  let '(a, b) := span_digits p in p = a ++ b /\ digits a /\ no_digit_head b.
+Proof.
+  induction p as [|c p IH]; cbn [span_digits].
+  - split; [reflexivity|]. split; [constructor|exact I].
+  - destruct (is_digit c) eqn:E.
+    + destruct (span_digits p) as [a b]. destruct IH as (H1 & H2 & H3).
+      split; [cbn [app]; congruence|]. split; [constructor; assumption|exact H3].
+    + split; [reflexivity|]. split; [constructor|exact E].
+Qed.
+
+Lemma digit_split_unique (ds rest : list Z) :
+  digits ds -> no_digit_head rest -> span_digits (ds ++ rest) = (ds, rest).
+Proof.
+  intros Hd Hr. induction Hd as [|c ds Hc Hd IH]; cbn [app span_digits].
+  - destruct rest as [|c rest]; [reflexivity|]. cbn [no_digit_head] in Hr. cbn [span_digits]. rewrite Hr. reflexivity.
+  - rewrite Hc, IH. reflexivity.
+Qed.
+
+Lemma dval_go_app (acc : Z) (a b : list Z) : dval_go acc (a ++ b) = dval_go (dval_go acc a) b.
+Proof. revert acc. induction a as [|c a IH]; intros acc; cbn [app dval_go]; [reflexivity|apply IH]. Qed.
+
+Lemma dval_go_nonneg (acc : Z) (ds : list Z) : 0 <= acc -> digits ds -> 0 <= dval_go acc ds.
+Proof.
+  revert acc. induction ds as [|c ds IH]; intros acc Ha Hd; cbn [dval_go]; [exact Ha|].
+  inversion Hd; subst. apply IH; [|assumption]. unfold is_digit in *. lia.
+Qed.
+
+Lemma scan_decimal_go_spec (i : Z) (p : list Z) (v : Z) (r : list Z) :
+  scan_decimal_go i p = Ok (v, r) -> r = snd (span_digits p) /\ v = dval_go i (fst (span_digits p)).
+Proof.
+  revert i. induction p as [|ch p IH]; intros i H; cbn [scan_decimal_go span_digits] in *.
+  - inversion H; subst. split; reflexivity.
+  - unfold is_digit. destruct ((ch - 48 <? 0) || (9 <? ch - 48)) eqn:E.
+    + inversion H; subst. destruct ((48 <=? ch) && (ch <=? 57)) eqn:E2; [lia|]. split; reflexivity.
+    + destruct ((48 <=? ch) && (ch <=? 57)) eqn:E2; [|lia].
+      destruct ((rg_maxValueDiv10 <? i) || (i =? rg_maxValueDiv10) && (rg_maxValueMod10 <? ch - 48)); [discriminate|].
+      apply IH in H. destruct (span_digits p) as [a b]. cbn [fst snd dval_go] in *. exact H.
+Qed.
+
+Lemma app_head {A} (ds rest : list A) (c : A) (q : list A) :
+  ds <> [] -> ds ++ rest = c :: q -> exists ds', ds = c :: ds' /\ ds' ++ rest = q.
+Proof. destruct ds as [|d ds]; [contradiction|]. cbn [app]. intros _ H. inversion H; subst. eauto. Qed.
+
+Lemma special_capnum_cases (c : Z) :
+  special_capnum c <> 1 -> is_digit c = false /\ c <> 36 /\ c <> 123.
+Proof.
+  unfold special_capnum, is_digit, s_replaceLeftPortion, s_replaceRightPortion, s_replaceLastGroup, s_replaceWholeString.
+  destruct (c =? 38) eqn:E1; [lia|]. destruct (c =? 96) eqn:E2; [lia|]. destruct (c =? 39) eqn:E3; [lia|].
+  destruct (c =? 43) eqn:E4; [lia|]. destruct (c =? 95) eqn:E5; [lia|]. intros H; contradiction.
+Qed.
+
+(* digit prefixes of a digit run followed by a non-digit *)
+Lemma digits_prefix (more1 rest' more tail : list Z) :
+  digits more1 -> digits more -> no_digit_head tail -> more ++ tail = more1 ++ rest' ->
+  exists x, more = more1 ++ x.
+Proof.
+  revert more. induction more1 as [|c more1 IH]; intros more H1 H2 H3 He; [exists more; reflexivity|].
+  inversion H1; subst. destruct more as [|d more].
+  - cbn [app] in He. subst tail. cbn [no_digit_head] in H3. congruence.
+  - cbn [app] in He. inversion He; subst. inversion H2; subst.
+    destruct (IH more) as (x & ->); try assumption. exists x. reflexivity.
+Qed.
+
+Lemma digits_app (a b : list Z) : digits (a ++ b) <-> digits a /\ digits b.
+Proof. unfold digits. apply Forall_app. Qed.
+
+(* ------------------------------------------------------------------------------------------ *)
+(** * The ECMAScript longest-valid-prefix loop                                                   *)
+
+Section Ecma.
+Variable env : penv.
+
+(* pre = digits consumed so far (non-empty), tail = text after them *)
+Definition best_inv (pre tail : list Z) (best : option (Z * list Z)) : Prop :=
+  match best with
+  | None => forall ds more, pre = ds ++ more -> ds <> [] -> is_capture_slot env (dval ds) = false
+  | Some (c, r) =>
+      exists ds more, pre = ds ++ more /\ ds <> [] /\ c = dval ds /\ is_capture_slot env c = true /\
+                      r = more ++ tail /\
+                      forall ds' more', pre = ds' ++ more' -> (length ds < length ds')%nat ->
+                                        is_capture_slot env (dval ds') = false
+  end.
+
+Lemma snoc_split {A} (pre ds more : list A) (c : A) :
+  pre ++ [c] = ds ++ more -> (more = [] /\ ds = pre ++ [c]) \/ exists more0, more = more0 ++ [c] /\ pre = ds ++ more0.
+Proof.
+  intros H. assert (more = [] \/ exists more0 x, more = more0 ++ [x]) as [->|(more0 & x & ->)].
+  { destruct more as [|y more]; [left; reflexivity|right].
+    destruct (@exists_last _ (y :: more)) as (l' & a & E); [discriminate|]. eauto. }
+  - left. rewrite app_nil_r in H. auto.
+  - right. exists more0. rewrite app_assoc in H. apply app_inj_tail in H as (H1 & H2). subst. auto.
+Qed.
+
+Lemma ecma_digits_inv (p : list Z) :
+  forall (pre : list Z) (n : Z) (best : option (Z * list Z)) (res : option (Z * list Z)),
+    pre <> [] -> digits pre -> n = dval pre -> best_inv pre p best ->
+    ecma_digits env n best p = Ok res ->
+    let '(run, tail) := span_digits p in best_inv (pre ++ run) tail res.
+Proof.
+  induction p as [|ch p IH]; intros pre n best res Hne Hd Hn Hb H; cbn [ecma_digits span_digits] in *.
+  - inversion H; subst. rewrite app_nil_r. exact Hb.
+  - destruct (is_digit ch) eqn:Ed; cbn [negb] in H.
+    2:{ inversion H; subst. rewrite app_nil_r. exact Hb. }
+    destruct ((rg_maxValueDiv10 <? n) || (n =? rg_maxValueDiv10) && (rg_maxValueMod10 <? ch - 48)); [discriminate|].
+    specialize (IH (pre ++ [ch]) (n * 10 + (ch - 48))
+                   (if is_capture_slot env (n * 10 + (ch - 48)) then Some (n * 10 + (ch - 48), p) else best) res).
+    destruct (span_digits p) as [run tail]. rewrite <- app_assoc in IH. cbn [app] in IH.
+    apply IH; clear IH; try assumption.
+    + destruct pre; discriminate.
+    + apply digits_app. split; [exact Hd|]. constructor; [exact Ed|constructor].
+    + subst n. unfold dval. rewrite dval_go_app. reflexivity.
+    + assert (n * 10 + (ch - 48) = dval (pre ++ [ch])) as Hv by (subst n; unfold dval; rewrite dval_go_app; reflexivity).
+      destruct (is_capture_slot env (n * 10 + (ch - 48))) eqn:Es.
+      * exists (pre ++ [ch]), []. rewrite app_nil_r. repeat split; try assumption.
+        -- destruct pre; discriminate.
+        -- intros ds' more' He Hl. apply (f_equal (@length Z)) in He. rewrite !app_length in *. lia.
+      * destruct best as [[c r]|].
+        -- destruct Hb as (ds & more & Hp & Hds & Hc & Hsl & Hr & Hlong).
+           exists ds, (more ++ [ch]). repeat split; try assumption.
+           ++ subst pre. rewrite app_assoc. reflexivity.
+           ++ subst r. rewrite <- app_assoc. reflexivity.
+           ++ intros ds' more' He Hl. apply snoc_split in He as [(-> & ->)|(more0 & -> & Hp')].
+              ** rewrite <- Hv. exact Es.
+              ** eapply Hlong; eauto.
+        -- intros ds more He Hds. apply snoc_split in He as [(-> & ->)|(more0 & -> & Hp')].
+           ++ rewrite <- Hv. exact Es.
+           ++ eapply Hb; eauto.
+Qed.
+
+End Ecma.
+
+(* ------------------------------------------------------------------------------------------ *)
+(** * Name scanners                                                                             *)
+
+Section Names.
+Variable is_word_char : Z -> bool.
+Variable is_ecma_start : Z -> bool.
+Variable is_ecma_char : Z -> bool.
+Variable env : penv.
+
+Lemma scan_word_spec (p a b : list Z) :
+  scan_word is_word_char p = (a, b) ->
+  p = a ++ b /\ Forall (fun c => is_word_char c = true) a /\
+  (b = [] \/ exists c b', b = c :: b' /\ is_word_char c = false).
+Proof.
+  revert a b. induction p as [|ch p IH]; intros a b H; cbn [scan_word] in H.
+  - inversion H; subst. split; [reflexivity|]. split; [constructor|left; reflexivity].
+  - destruct (is_word_char ch) eqn:E.
+    + destruct (scan_word is_word_char p) as [a' b']. inversion H; subst.
+      destruct (IH _ _ eq_refl) as (H1 & H2 & H3).
+      split; [cbn [app]; congruence|]. split; [constructor; assumption|exact H3].
+    + inversion H; subst. split; [reflexivity|]. split; [constructor|right; eauto].
+Qed.
+
+Lemma scan_word_unique (name rest : list Z) (c : Z) :
+  Forall (fun x => is_word_char x = true) name -> is_word_char c = false ->
+  scan_word is_word_char (name ++ c :: rest) = (name, c :: rest).
+Proof.
+  intros HF Hc. induction HF as [|x name Hx HF IH]; cbn [app scan_word].
+  - rewrite Hc. reflexivity.
+  - rewrite Hx, IH. reflexivity.
+Qed.
+
+Fixpoint span_ecma (first : bool) (p : list Z) : list Z * list Z :=
+  match p with
+  | [] => ([], [])
+  | ch :: p' => if (if first then is_ecma_start ch else is_ecma_char ch)
+                then let '(a, b) := span_ecma false p' in (ch :: a, b)
+                else ([], p)
+  end.
+
+Lemma scan_ecma_capname_go_plain (fuel : nat) (index : Z) (acc p : list Z) :
+  (length p < fuel)%nat -> 0 <= index -> ~ In 92 p ->
+  scan_ecma_capname_go is_ecma_start is_ecma_char env fuel index acc p =
+  Ok (acc ++ fst (span_ecma (index =? 0) p), snd (span_ecma (index =? 0) p)).
+Proof.
+  revert index acc p. induction fuel as [|f IH]; intros index acc p Hf Hi Hn; [lia|].
+  cbn [scan_ecma_capname_go]. destruct p as [|ch p1]; cbn [span_ecma fst snd].
+  - rewrite app_nil_r. reflexivity.
+  - destruct (ch =? 92) eqn:E92; [exfalso; apply Hn; left; lia|].
+    destruct (if index =? 0 then is_ecma_start ch else is_ecma_char ch) eqn:Ev; cbn [negb].
+    + rewrite IH; [|cbn [length] in Hf; lia|lia|intros Hc; apply Hn; right; exact Hc].
+      replace (index + 1 =? 0) with false by lia.
+      destruct (span_ecma false p1) as [a b]. cbn [fst snd]. rewrite <- app_assoc. reflexivity.
+    + cbn [fst snd]. rewrite app_nil_r. reflexivity.
+Qed.
+
+Lemma span_ecma_false_spec (p a b : list Z) :
+  span_ecma false p = (a, b) ->
+  p = a ++ b /\ Forall (fun c => is_ecma_char c = true) a /\
+  (b = [] \/ exists c b', b = c :: b' /\ is_ecma_char c = false).
+Proof.
+  revert a b. induction p as [|ch p IH]; intros a b H; cbn [span_ecma] in H.
+  - inversion H; subst. split; [reflexivity|]. split; [constructor|left; reflexivity].
+  - destruct (is_ecma_char ch) eqn:E.
+    + destruct (span_ecma false p) as [a' b']. inversion H; subst.
+      destruct (IH _ _ eq_refl) as (H1 & H2 & H3).
+      split; [cbn [app]; congruence|]. split; [constructor; assumption|exact H3].
+    + inversion H; subst. split; [reflexivity|]. split; [constructor|right; eauto].
+Qed.
+
+Lemma span_ecma_false_unique (cs rest : list Z) (c : Z) :
+  Forall (fun x => is_ecma_char x = true) cs -> is_ecma_char c = false ->
+  span_ecma false (cs ++ c :: rest) = (cs, c :: rest).
+Proof.
+  intros HF Hc. induction HF as [|x cs Hx HF IH]; cbn [app span_ecma].
+  - rewrite Hc. reflexivity.
+  - rewrite Hx, IH. reflexivity.
+Qed.
+
+End Names.
+
+(* ------------------------------------------------------------------------------------------ *)
+(** * scanDollar recognises exactly the forms of the grammar                                    *)
+
+Section DollarSound.
+Variable is_word_char : Z -> bool.
+Variable is_ecma_start : Z -> bool.
+Variable is_ecma_char : Z -> bool.
+Variable env : penv.
+
+Notation dollar_form := (dollar_form is_word_char is_ecma_start is_ecma_char env).
+Notation scan_dollar := (Replace.scan_dollar is_word_char is_ecma_start is_ecma_char env).
+
+Lemma digits_hd (ds rest : list Z) (c : Z) (q : list Z) :
+  ds <> [] -> digits ds -> ds ++ rest = c :: q -> is_digit c = true.
+Proof.
+  intros Hne Hd He. destruct (app_head _ _ _ _ Hne He) as (ds' & -> & _). inversion Hd; subst. assumption.
+Qed.
+
+(* inversion by the class of the first character *)
+Lemma form_inv_digit (c : Z) (q : list Z) (it : item) (r : list Z) :
+  is_digit c = true -> dollar_form (c :: q) it r ->
+  exists ds, ds <> [] /\ digits ds /\ c :: q = ds ++ r /\ it = IRef (dval ds) /\
+             is_capture_slot env (dval ds) = true /\
+             ((use_e env = false /\ no_digit_head r) \/
+              (use_e env = true /\
+               forall more rest', more <> [] -> digits more -> r = more ++ rest' ->
+                                  is_capture_slot env (dval (ds ++ more)) = false)).
+Proof.
+  intros Hd H. inversion H; subst.
+  - discriminate.
+  - match goal with H : special_capnum _ <> 1 |- _ => destruct (special_capnum_cases _ H) as (Hx & _) end. congruence.
+  - exists ds. repeat split; auto.
+  - exists ds. repeat split; auto.
+  - discriminate.
+  - discriminate.
+  - discriminate.
+Qed.
+
+Lemma form_inv_brace (q : list Z) (it : item) (r : list Z) :
+  dollar_form (123 :: q) it r ->
+  (exists ds, ds <> [] /\ digits ds /\ q = ds ++ 125 :: r /\ it = IRef (dval ds) /\ is_capture_slot env (dval ds) = true) \/
+  (exists name, use_e env = false /\ name <> [] /\ Forall (fun c => is_word_char c = true) name /\
+                is_digit (hd 0 name) = false /\ is_word_char 125 = false /\ is_capture_name env name = true /\
+                q = name ++ 125 :: r /\ it = IRef (capture_slot_from_name env name)) \/
+  (exists c cs, use_e env = true /\ is_digit c = false /\ is_ecma_start c = true /\
+                Forall (fun x => is_ecma_char x = true) cs /\ ~ In 92 (c :: cs) /\ is_ecma_char 125 = false /\
+                is_capture_name env (map write_rune (c :: cs)) = true /\
+                q = (c :: cs) ++ 125 :: r /\ it = IRef (capture_slot_from_name env (map write_rune (c :: cs)))).
+Proof.
+  intros H. inversion H; subst.
+  - match goal with H : special_capnum _ <> 1 |- _ => destruct (special_capnum_cases _ H) as (_ & _ & Hx) end. congruence.
+  - exfalso. assert (is_digit 123 = true) as Hx by (eapply digits_hd; eauto). discriminate.
+  - exfalso. assert (is_digit 123 = true) as Hx by (eapply digits_hd; eauto). discriminate.
+  - left. exists ds. repeat split; auto.
+  - right; left. exists name. repeat split; auto.
+  - right; right. exists c, cs. repeat split; auto.
+Qed.
+
+Lemma form_inv_other (c : Z) (q : list Z) (it : item) (r : list Z) :
+  is_digit c = false -> c <> 123 -> dollar_form (c :: q) it r ->
+  r = q /\ ((c = 36 /\ it = ILit 36) \/ (special_capnum c <> 1 /\ it = IRef (special_capnum c))).
+Proof.
+  intros Hd Hb H. inversion H; subst.
+  - split; [reflexivity|left; split; reflexivity].
+  - split; [reflexivity|right; split; [assumption|reflexivity]].
+  - exfalso. assert (is_digit c = true) as Hx by (eapply digits_hd; eauto). congruence.
+  - exfalso. assert (is_digit c = true) as Hx by (eapply digits_hd; eauto). congruence.
+  - congruence.
+  - congruence.
+  - congruence.
+Qed.
+
+Lemma no_form_nil (it : item) (r : list Z) : ~ dollar_form [] it r.
+Proof.
+  intros H. remember (@nil Z) as p eqn:Ep. destruct H; try discriminate;
+    (destruct ds; [contradiction|discriminate]).
+Qed.
+
+Lemma span_digits_of_app (ds r : list Z) (c : Z) (q : list Z) :
+  digits ds -> no_digit_head r -> c :: q = ds ++ r -> span_digits (c :: q) = (ds, r).
+Proof. intros Hd Hr ->. apply digit_split_unique; assumption. Qed.
+
+Lemma scan_dollar_sound (p : list Z) (nd : rnode) (rest : list Z) :
+  (use_e env = true -> ~ In 92 p) ->
+  scan_dollar p = Ok (nd, rest) ->
+  (exists it, dollar_form p it rest /\ items_of_node nd = [it]) \/
+  ((forall it r, ~ dollar_form p it r) /\ nd = mk_one 36 /\ rest = p).
+Proof.
+  intros Hbs. unfold Replace.scan_dollar. destruct p as [|ch0 p0].
+  { intros H; inversion H; subst. right. split; [apply no_form_nil|auto]. }
+  destruct ((ch0 =? 123) && (1 <? zlen (ch0 :: p0))) eqn:Ea.
+  - (* angled *)
+    assert (ch0 = 123) as -> by lia.
+    destruct p0 as [|ch q1]; [rewrite zlen_cons in Ea; change (zlen (@nil Z)) with 0 in Ea; lia|].
+    destruct (is_digit ch) eqn:Ed.
+    + (* ${digits *)
+      cbn [negb andb]. unfold scan_decimal.
+      destruct (scan_decimal_go 0 (ch :: q1)) as [[capnum q2]| | |] eqn:E; try discriminate. cbn [bind].
+      apply scan_decimal_go_spec in E. pose proof (span_digits_spec (ch :: q1)) as Hsp.
+      destruct (span_digits (ch :: q1)) as [a b] eqn:Esp. cbn [fst snd] in E. destruct E as (-> & ->).
+      destruct Hsp as (Hp & Hda & Hnb). fold (dval a).
+      assert (a <> []) as Hane.
+      { intros ->. cbn [span_digits] in Esp. rewrite Ed in Esp. destruct (span_digits q1); discriminate. }
+      assert (forall it r, dollar_form (123 :: ch :: q1) it r ->
+                           exists r', b = 125 :: r' /\ is_capture_slot env (dval a) = true) as Hinv.
+      { intros it r Hf. apply form_inv_brace in Hf as [(ds & H1 & H2 & H3 & H4 & H5)|[(name & H1 & H2 & H3 & H4 & H5 & H6 & H7 & H8)|(c & cs & H1 & H2 & H3 & H4 & H5 & H6 & H7 & H8 & H9)]].
+        - assert (span_digits (ch :: q1) = (ds, 125 :: r)) as Hu by (apply span_digits_of_app; [assumption|reflexivity|assumption]).
+          rewrite Esp in Hu. inversion Hu; subst. eauto.
+        - exfalso. destruct name as [|x name]; [contradiction|]. cbn [app hd] in *. inversion H7; subst. congruence.
+        - exfalso. cbn [app] in H8. inversion H8; subst. congruence. }
+      destruct b as [|c q3].
+      * intros H; inversion H; subst. right. split; [|auto].
+        intros it r Hf. destruct (Hinv _ _ Hf) as (r' & Hx & _). discriminate.
+      * destruct ((c =? 125) && is_capture_slot env (dval a)) eqn:Ec.
+        -- intros H; inversion H; subst. left. exists (IRef (dval a)). split; [|reflexivity].
+           assert (c = 125) as -> by lia. rewrite Hp. apply DF_bnum; try assumption; try lia.
+        -- intros H; inversion H; subst. right. split; [|auto].
+           intros it r Hf. destruct (Hinv _ _ Hf) as (r' & Hx & Hs). inversion Hx; subst. lia.
+    + (* ${name *)
+      cbn [andb negb]. destruct (is_group_name_start is_word_char is_ecma_start env ch) eqn:Eg.
+      * unfold Replace.scan_capname. unfold is_group_name_start in Eg. destruct (use_e env) eqn:Ee.
+        -- (* ECMAScript *)
+           assert (~ In 92 (ch :: q1)) as Hn by (intros Hc; apply (Hbs eq_refl); right; exact Hc).
+           rewrite scan_ecma_capname_go_plain by (try lia; try exact Hn). cbn [bind Z.eqb].
+           assert (is_ecma_start ch = true) as Hst.
+           { destruct (is_ecma_start ch); [reflexivity|]. cbn [orb] in Eg. exfalso. apply Hn. left. lia. }
+           cbn [span_ecma]. rewrite Hst.
+           destruct (span_ecma is_ecma_start is_ecma_char false q1) as [cs b] eqn:Esp. cbn [fst snd app].
+           destruct (span_ecma_false_spec _ _ _ _ _ Esp) as (Hq & Hcs & Hb).
+           assert (forall it r, dollar_form (123 :: ch :: q1) it r ->
+                                b = 125 :: r /\ is_capture_name env (map write_rune (ch :: cs)) = true) as Hinv.
+           { intros it r Hf. apply form_inv_brace in Hf as [(ds & H1 & H2 & H3 & H4 & H5)|[(name & H1 & H2 & H3 & H4 & H5 & H6 & H7 & H8)|(c & cs' & H1 & H2 & H3 & H4 & H5 & H6 & H7 & H8 & H9)]].
+             - exfalso. assert (is_digit ch = true) as Hx by (eapply digits_hd; eauto). congruence.
+             - congruence.
+             - cbn [app] in H8. injection H8 as H8a H8b. rewrite H8b in Esp.
+               rewrite (span_ecma_false_unique _ _ _ _ _ H4 H6) in Esp. inversion Esp; subst. auto. }
+           destruct b as [|c q3].
+           ++ intros H; inversion H; subst. right. split; [|auto].
+              intros it r Hf. destruct (Hinv _ _ Hf) as (Hx & _). discriminate.
+           ++ destruct ((c =? 125) && is_capture_name env (map write_rune (ch :: cs))) eqn:Ec.
+              ** intros H; inversion H; subst. left. eexists. split; [|reflexivity].
+                 assert (c = 125) as -> by lia.
+                 change (123 :: ch :: cs ++ 125 :: rest) with (123 :: (ch :: cs) ++ 125 :: rest).
+                 apply DF_bname_ecma; try assumption; try lia.
+                 --- intros Hc. apply Hn. destruct Hc as [Hc|Hc]; [left; exact Hc|right].
+                     apply in_or_app. left. exact Hc.
+                 --- destruct Hb as [Hb|(c' & b' & Hb & Hc')]; [discriminate|]. inversion Hb; subst. exact Hc'.
+              ** intros H; inversion H; subst. right. split; [|auto].
+                 intros it r Hf. destruct (Hinv _ _ Hf) as (Hx & Hs). inversion Hx; subst. lia.
+        -- (* .NET names *)
+           cbn [bind]. destruct (scan_word is_word_char (ch :: q1)) as [name b] eqn:Esw.
+           destruct (scan_word_spec _ _ _ _ Esw) as (Hq & Hw & Hb).
+           assert (exists name', name = ch :: name') as (name' & ->).
+           { cbn [scan_word] in Esw. rewrite Eg in Esw. destruct (scan_word is_word_char q1). inversion Esw; subst. eauto. }
+           assert (forall it r, dollar_form (123 :: ch :: q1) it r ->
+                                b = 125 :: r /\ is_capture_name env (ch :: name') = true) as Hinv.
+           { intros it r Hf. apply form_inv_brace in Hf as [(ds & H1 & H2 & H3 & H4 & H5)|[(nm & H1 & H2 & H3 & H4 & H5 & H6 & H7 & H8)|(c & cs' & H1 & H2 & H3 & H4 & H5 & H6 & H7 & H8 & H9)]].
+             - exfalso. assert (is_digit ch = true) as Hx by (eapply digits_hd; eauto). congruence.
+             - rewrite H7 in Esw. rewrite (scan_word_unique _ _ _ _ H3 H5) in Esw. inversion Esw; subst. auto.
+             - congruence. }
+           destruct b as [|c q3].
+           ++ intros H; inversion H; subst. right. split; [|auto].
+              intros it r Hf. destruct (Hinv _ _ Hf) as (Hx & _). discriminate.
+           ++ destruct ((c =? 125) && is_capture_name env (ch :: name')) eqn:Ec.
+              ** intros H; inversion H; subst. left. eexists. split; [|reflexivity].
+                 assert (c = 125) as -> by lia. rewrite Hq. apply DF_bname; try assumption; try lia; try discriminate.
+                 destruct Hb as [Hb|(c' & b' & Hb & Hc')]; [discriminate|]. inversion Hb; subst. exact Hc'.
+              ** intros H; inversion H; subst. right. split; [|auto].
+                 intros it r Hf. destruct (Hinv _ _ Hf) as (Hx & Hs). inversion Hx; subst. lia.
+      * intros H; inversion H; subst. right. split; [|auto].
+        intros it r Hf. unfold is_group_name_start in Eg.
+        apply form_inv_brace in Hf as [(ds & H1 & H2 & H3 & H4 & H5)|[(nm & H1 & H2 & H3 & H4 & H5 & H6 & H7 & H8)|(c & cs' & H1 & H2 & H3 & H4 & H5 & H6 & H7 & H8 & H9)]].
+        -- assert (is_digit ch = true) as Hx by (eapply digits_hd; eauto). congruence.
+        -- rewrite H1 in Eg. destruct nm as [|x nm]; [contradiction|]. cbn [app] in H7. inversion H7; subst.
+           inversion H3; subst. congruence.
+        -- rewrite H1 in Eg. cbn [app] in H8. inversion H8; subst. rewrite H3 in Eg. discriminate.
+  - (* not angled *)
+    assert (forall it r, dollar_form (123 :: p0) it r -> ch0 = 123 -> False) as Hnb.
+    { intros it r Hf ->. apply form_inv_brace in Hf as [(ds & H1 & H2 & H3 & _)|[(nm & _ & H1 & _ & _ & _ & _ & H3 & _)|(c & cs' & _ & _ & _ & _ & _ & _ & _ & H3 & _)]];
+        subst p0; rewrite zlen_cons in Ea.
+      - destruct ds; [contradiction|]. cbn [app] in Ea. rewrite zlen_cons in Ea. pose proof (zlen_nonneg (ds ++ 125 :: r)). lia.
+      - destruct nm; [contradiction|]. cbn [app] in Ea. rewrite zlen_cons in Ea. pose proof (zlen_nonneg (nm ++ 125 :: r)). lia.
+      - cbn [app] in Ea. rewrite zlen_cons in Ea. pose proof (zlen_nonneg (cs' ++ 125 :: r)). lia. }
+    destruct (is_digit ch0) eqn:Ed.
+    + cbn [negb andb]. destruct (use_e env) eqn:Ee.
+      * (* ECMAScript $digits *)
+        destruct (ecma_digits env (ch0 - 48) (if is_capture_slot env (ch0 - 48) then Some (ch0 - 48, p0) else None) p0)
+          as [res| | |] eqn:E; try discriminate. cbn [bind].
+        assert (ch0 - 48 = dval [ch0]) as Hv by reflexivity.
+        eapply (ecma_digits_inv env p0 [ch0]) in E; [|discriminate|constructor; [exact Ed|constructor]|exact Hv|].
+        2:{ destruct (is_capture_slot env (ch0 - 48)) eqn:Es.
+            - exists [ch0], []. repeat split; auto; try discriminate.
+              intros ds' more' He Hl. apply (f_equal (@length Z)) in He. rewrite app_length in He. cbn [length] in *. lia.
+            - intros ds more He Hne. destruct ds as [|d ds]; [contradiction|]. cbn [app] in He. inversion He; subst.
+              destruct ds; [|discriminate]. rewrite <- Hv. exact Es. }
+        pose proof (span_digits_spec p0) as Hsp. destruct (span_digits p0) as [run tail] eqn:Esp.
+        destruct Hsp as (Hp0 & Hdrun & Hntail).
+        assert (digits (ch0 :: run)) as Hdall by (constructor; assumption).
+        assert (forall it r, dollar_form (ch0 :: p0) it r ->
+                 exists ds, ds <> [] /\ digits ds /\ ch0 :: p0 = ds ++ r /\ it = IRef (dval ds) /\ is_capture_slot env (dval ds) = true /\
+                            exists more, ch0 :: run = ds ++ more /\ r = more ++ tail) as Hinv.
+        { intros it r Hf. apply form_inv_digit in Hf as (ds & H1 & H2 & H3 & H4 & H5 & H6); [|exact Ed].
+          exists ds. repeat split; try assumption.
+          assert (ds ++ r = (ch0 :: run) ++ tail) as He by (rewrite <- H3, Hp0; reflexivity).
+          symmetry in He. destruct (digits_prefix ds r (ch0 :: run) tail H2 Hdall Hntail He) as (x & Hx).
+          exists x. split; [exact Hx|]. rewrite Hx in He. rewrite <- app_assoc in He. apply app_inv_head in He. auto. }
+        destruct res as [[capnum rest']|].
+        -- cbn [app] in E. destruct E as (ds & more & Hpre & Hne & Hc & Hs & Hr & Hlong).
+           assert (0 <= capnum) as Hc0.
+           { subst capnum. apply dval_go_nonneg; [lia|]. rewrite Hpre in Hdall. apply digits_app in Hdall. tauto. }
+           destruct (0 <=? capnum) eqn:E0; [|lia].
+           intros H; inversion H; subst nd rest. left. exists (IRef capnum). split; [|reflexivity].
+           assert (ch0 :: p0 = ds ++ rest') as Hp.
+           { rewrite Hp0, Hr, app_assoc, <- Hpre. reflexivity. }
+           rewrite Hp, Hc. rewrite Hpre in Hdall. apply digits_app in Hdall as (Hdds & Hdmore).
+           apply DF_num_ecma; try assumption; try (rewrite <- Hc; assumption).
+           intros more1 rest1 Hm1 Hdm1 Hr1. rewrite Hr in Hr1.
+           destruct (digits_prefix more1 rest1 more tail Hdm1 Hdmore Hntail Hr1) as (x & Hx).
+           apply (Hlong (ds ++ more1) x); [rewrite Hpre, Hx, app_assoc; reflexivity|].
+           rewrite app_length. destruct more1; [contradiction|cbn [length]; lia].
+        -- intros H; inversion H; subst. right. split; [|auto].
+           intros it r Hf. destruct (Hinv _ _ Hf) as (ds & H1 & H2 & H3 & H4 & H5 & more & H6 & H7).
+           cbn [app] in E. rewrite (E ds more H6 H1) in H5. discriminate.
+      * (* .NET $digits *)
+        unfold scan_decimal.
+        destruct (scan_decimal_go 0 (ch0 :: p0)) as [[capnum q2]| | |] eqn:E; try discriminate. cbn [bind].
+        apply scan_decimal_go_spec in E. pose proof (span_digits_spec (ch0 :: p0)) as Hsp.
+        destruct (span_digits (ch0 :: p0)) as [a b] eqn:Esp. cbn [fst snd] in E. destruct E as (-> & ->).
+        destruct Hsp as (Hp & Hda & Hnb'). fold (dval a).
+        assert (a <> []) as Hane.
+        { intros ->. cbn [span_digits] in Esp. rewrite Ed in Esp. destruct (span_digits p0); discriminate. }
+        cbn [andb]. destruct (is_capture_slot env (dval a)) eqn:Es.
+        -- intros H; inversion H; subst. left. exists (IRef (dval a)). split; [|reflexivity].
+           rewrite Hp. apply DF_num; assumption.
+        -- intros H; inversion H; subst. right. split; [|auto].
+           intros it r Hf. apply form_inv_digit in Hf as (ds & H1 & H2 & H3 & H4 & H5 & [(H6 & H7)|(H6 & _)]); [| |exact Ed]; [|congruence].
+           assert (span_digits (ch0 :: p0) = (ds, r)) as Hu by (apply span_digits_of_app; assumption).
+           rewrite Esp in Hu. inversion Hu; subst. congruence.
+    + (* a single character after the $ *)
+      cbn [andb negb].
+      assert (ch0 = 123 -> forall it r, ~ dollar_form (ch0 :: p0) it r) as H123.
+      { intros -> it r Hf. eapply Hnb; eauto. }
+      destruct (ch0 =? 36) eqn:E36.
+      * intros H; inversion H; subst. left. exists (ILit 36). assert (ch0 = 36) as -> by lia.
+        split; [apply DF_dollar|reflexivity].
+      * destruct (negb (special_capnum ch0 =? 1)) eqn:Esp.
+        -- intros H; inversion H; subst. left. exists (IRef (special_capnum ch0)). split; [|reflexivity].
+           apply DF_special. lia.
+        -- intros H; inversion H; subst. right. split; [|auto].
+           intros it r Hf. destruct (Z.eq_dec ch0 123) as [E123|E123]; [eapply H123; eauto|].
+           apply form_inv_other in Hf as (_ & [(Hx & _)|(Hx & _)]); try assumption; lia.
+Qed.
+
+End DollarSound.
